@@ -11,8 +11,11 @@ import time
 P, k = sys.argv[1], sys.argv[2]
 checks = sys.argv[3:] or [P]
 src = f"/tmp/mut/{P}"
-patch, demo = f"{src}/patch{k}.diff", f"{src}/demo{k}.py"
+patch, demo0 = f"{src}/patch{k}.diff", f"{src}/demo{k}.py"
 wt = f"/tmp/wt/eval_{P}_{k}"
+# some demonstrations assert that canopen is imported from their author's worktree: retarget
+demo = f"/tmp/mut/{P}/demo{k}_eval.py"
+open(demo, "w").write(open(demo0).read().replace(f"/tmp/wt/{P}/", wt + "/").replace(f"/tmp/wt/{P}", wt))
 sh = lambda c, **kw: subprocess.run(c, shell=True, text=True, stdout=subprocess.PIPE, stderr=subprocess.STDOUT, **kw)  # noqa
 sh(f"git -C /repo worktree remove --force {wt}")
 assert sh(f"git -C /repo worktree add -q {wt} HEAD").returncode == 0
@@ -56,7 +59,7 @@ if ok:
     d = f"/verif/seeded/{P}-{k}"
     os.makedirs(d, exist_ok=True)
     shutil.copy(patch, f"{d}/patch.diff")
-    shutil.copy(demo, f"{d}/demo.py")
+    shutil.copy(demo0, f"{d}/demo.py")
     notes = open(f"{src}/notes.md").read() if os.path.exists(f"{src}/notes.md") else ""
     json.dump({"breaks_property": P, "needs": "see notes", "notes_excerpt": notes[:3000],
                "confirmed": {"suite": res["suite"], "demo_clean_rc": res["demo_clean_rc"], "demo_patched_rc": res["demo_patched_rc"]},
